@@ -615,6 +615,9 @@ class MessageManager(ClientLike):
             payload (Union[bytes, MessageData]): Message data to send
         """
         for module in list(self.logger_modules):
+            if module not in self.logger_modules:
+                # removed while another logger's failure was being reported
+                continue
             if module.conn not in self.wlist:
                 # Block until logger is ready
                 select.select([], [module.conn], [], None)
